@@ -3,14 +3,16 @@
 # Prints one line per check: CAUGHT / MISSED / BROKEN(exit 2).
 set -u
 PATCH=$1; shift
-cd /verif
-if ! git -C /repo apply --check "$PATCH" 2>/dev/null; then echo "patch does not apply: $PATCH"; exit 3; fi
-git -C /repo apply "$PATCH"
-export VERIF_REPLAY_ROOT=${VERIF_REPLAY_ROOT:-/verif/.run/seeded-replays}
+V=${VERIF_DIR:-/verif}; R=${REPO_DIR:-/repo}
+cd "$V"
+if ! git -C "$R" apply --check "$PATCH" 2>/dev/null; then echo "patch does not apply: $PATCH"; exit 3; fi
+git -C "$R" apply "$PATCH"
+export VERIF_REPLAY_ROOT=${VERIF_REPLAY_ROOT:-$V/.run/seeded-replays}
+export VERIF_EVIDENCE_DIR=${VERIF_EVIDENCE_DIR:-$V/.run/seeded-evidence}
 mkdir -p "$VERIF_REPLAY_ROOT"
-trap 'git -C /repo checkout -- .' EXIT
+trap 'git -C "$R" checkout -- .' EXIT
 for id in "$@"; do
-  out=$(VERIF_DIR=/verif ./check "$id" quick 2>&1); rc=$?
+  out=$(VERIF_DIR="$V" REPO_DIR="$R" ./check "$id" quick 2>&1); rc=$?
   v=$(echo "$out" | grep -c '^VIOLATION')
   sig=$(echo "$out" | grep '^violation:' | head -3 | sed 's/violation: //' | tr '\n' ';')
   if [ $rc -eq 1 ] && [ "$v" -gt 0 ]; then echo "$id CAUGHT ($sig)"; elif [ $rc -eq 0 ]; then echo "$id MISSED"; else echo "$id BROKEN rc=$rc: $(echo "$out" | grep -E 'MACHINERY|BUILD' | head -2)"; fi
